@@ -16,7 +16,7 @@ struct HostileWorld : World {
 	const char *name() const override { return "hostile"; }
 	const char *const *opnames() const override { return OPS; }
 	const char *const *faultnames() const override { return FAULTS; }
-	const char *const *shrinkable_cfg() const override { static const char *const k[] = {"nvec", "s1", "s2", "s3", "mis", "grant", 0}; return k; }
+	const char *const *shrinkable_cfg() const override { static const char *const k[] = {"nvec", "s1", "s2", "s3", "mis", "grant", "qoff", "qcap", 0}; return k; }
 	const char *components_json() const override {
 		return "{\"real\":[\"mpt_decode_cobs\",\"mpt_decode_cobs_r\",\"mpt_decode_cobs_zpe\",\"mpt_decode_cobs_zpe_r\",\"mpt_decode_command\",\"mpt_message_read (inside the decoders)\"],"
 		       "\"stub\":[\"sender = independent reference encoders\",\"network task applying bit flips, drops, duplications, zero insertion, truncation, splices, swaps, garbage\","
@@ -31,6 +31,9 @@ struct HostileWorld : World {
 		p.set("s1", r.range(0, 300)); p.set("s2", r.range(0, 300)); p.set("s3", r.range(0, 300));
 		p.set("mis", r.range(0, 15));
 		p.set("grant", r.chance(1, 2) ? 8 : r.range(1, 40));
+		p.set("layer", r.chance(1, 3) ? 1 : 0);   // 1: the same bytes through a real decode queue (mpt_queue_recv/peek/shift)
+		static const int caps[] = {4, 8, 16, 40, 64, 100, 300};
+		p.set("qcap", r.pick(caps)); p.set("qoff", r.range(0, 300));
 		Bytes stream;
 		int kind = (int) r.below(10);
 		int ncorrupt = 0;
@@ -89,11 +92,102 @@ struct HostileWorld : World {
 		Bytes s;
 		for (unsigned i = 0; i < l; ++i) { s.push_back(ALPHA[idx % 11]); idx /= 11; }
 		p.set("framing", framing); p.set("nvec", mode == 2 ? 2 : 1); p.set("s1", l / 2); p.set("s2", 0); p.set("s3", 0);
-		p.set("mis", (l * 7 + framing) & 15); p.set("grant", 8); p.set("corruptions", 0);
+		p.set("mis", (l * 7 + framing) & 15); p.set("grant", 8); p.set("corruptions", 0); p.set("layer", 0);
 		p.blobs.push_back(s);
 		if (mode == 1) for (unsigned i = 0; i < l; ++i) { Op a; a.kind = OP_ARRIVE; a.a = 1; p.ops.push_back(a); Op d; d.kind = OP_DECODE; p.ops.push_back(d); }
 	}
 
+	struct Fr { size_t beg, end; int verdict; Bytes msg; };
+	static const std::vector<Fr> &frames_of(const std::vector<Fr> &f) { return f; }
+	// ---------------------------------------------------------------- the same hostile bytes through a real decode queue
+	void exec_queue(const Plan &p, int framing, const Bytes &stream, const std::vector<Fr> &frames, Log &log, Stats &st) {
+		decode_queue dq(decoder_for(framing));
+		size_t cap = (size_t) std::min<int64_t>(std::max<int64_t>(p.get("qcap", 64), 4), 4096);
+		dq.base = malloc(cap); memset(dq.base, 0xEE, cap); dq.max = cap; dq.len = 0; dq.off = (size_t) std::max<int64_t>(p.get("qoff"), 0) % cap;
+		struct Free { queue &q; ~Free() { free(q.base); q.base = 0; q.max = q.len = 0; } } fr{dq};
+		st.hit("layer:queue");
+		size_t fed = 0, frames_done = 0, drop_to = 0; uint64_t calls = 0;
+		auto grow = [&](size_t need) { size_t got; { Sut s; got = mpt_queue_prepare(&dq, need); } return got; };
+		auto arrive = [&](size_t n) {
+			n = std::min(n, stream.size() - fed);
+			for (size_t i = 0; i < n; ++i, ++fed) {
+				if (fed < drop_to) continue;
+				if (dq.len == dq.max) { { Sut s; mpt_queue_shift(&dq); } if (dq.len == dq.max && !grow(64)) fail("state", "queue cannot grow"); }
+				int rc; { Sut s; rc = mpt_qpush(&dq, 1, &stream[fed]); }
+				if (rc < 0) fail("state", "qpush refused with %zu free", dq.max - dq.len);
+			}
+			log.ev("ARRIVE %zu -> queue %zu/%zu off=%zu", n, dq.len, dq.max, dq.off);
+		};
+		auto resync = [&]() {
+			drop_to = frames_done < frames.size() ? frames[frames_done].end : stream.size();
+			++frames_done;
+			{ Sut s; mpt_queue_crop(&dq, 0, dq.len); }
+			dq._state = decode_state();
+			for (size_t i = drop_to; i < fed; ++i) { if (dq.len == dq.max) grow(64); Sut s; mpt_qpush(&dq, 1, &stream[i]); }
+			log.ev("RESYNC to stream offset %zu", drop_to);
+		};
+		auto step = [&](bool peek) -> bool {
+			++calls;
+			if (peek) {
+				if (!dq.len) return false;
+				uint8_t buf[64]; ssize_t r; { Sut s; SUT_GUARD_ABORT(r = mpt_queue_peek(&dq, sizeof buf, buf)); }
+				log.ev("PEEK -> %zd", r); st.hit("op:PEEK");
+				if (dq._state.curr > dq.len) fail("state", "after peek: position %zu beyond queue %zu", dq._state.curr, dq.len);
+				return true;
+			}
+			st.hit("op:DECODE");
+			int rc; { Sut s; SUT_GUARD_ABORT(rc = mpt_queue_recv(&dq)); }
+			const decode_state &ds = dq._state;
+			log.ev("RECV -> %d curr=%zu pos=%zu len=%zu msg=%zd qlen=%zu", rc, ds.curr, ds.data.pos, ds.data.len, ds.data.msg, dq.len);
+			st.state(30, framing * 16 + (ds.data.msg >= 0 ? 2 : ds._ctx ? 1 : 0) * 4 + (dq.off + dq.len > dq.max ? 1 : 0), (unsigned) (rc < 0 ? 20 - (rc < -19 ? -19 : rc) : rc));
+			if (rc >= 0 || rc == E_MissingBuffer) if (ds.curr > dq.len || ds.data.pos + ds.data.len > ds.curr)
+				fail("state", "%s queue decoder state leaves the data: curr=%zu pos=%zu len=%zu, queue %zu (return %d)", ref::framing_name(framing), ds.curr, ds.data.pos, ds.data.len, dq.len, rc);
+			if (rc == E_MissingBuffer) { st.hit("fault:decoder_needs_space"); grow((dq.max - dq.len) + 64); return true; }
+			if (rc == E_MissingData && !dq.len) return false;
+			if (rc > 0) {
+				message m; struct iovec vec;
+				int g; { Sut s; g = mpt_message_get(&dq, ds.data.pos, (size_t) ds.data.msg, &m, &vec); }
+				if (g < 0) fail("state", "message window outside the queue");
+				Bytes got((size_t) ds.data.msg); { Sut s; mpt_message_read(&m, got.size(), got.data()); }
+				if (frames_done >= frames.size()) fail("invented", "%s queue delivered a message of %zu bytes although no complete frame is left", ref::framing_name(framing), got.size());
+				const Fr &f = frames[frames_done];
+				if (f.end > fed) fail("invented", "%s queue delivered a message before the frame's delimiter arrived", ref::framing_name(framing));
+				if (f.verdict == ref::WELL && got != f.msg) {
+					size_t d = 0; while (d < got.size() && d < f.msg.size() && got[d] == f.msg[d]) ++d;
+					fail("wrong-message", "%s queue: well-formed frame %s decoded to %zu bytes, reference says %zu (first difference at %zu: got %s want %s)", ref::framing_name(framing),
+					     sim::hex(stream.data() + f.beg, f.end - f.beg, 24).c_str(), got.size(), f.msg.size(), d, sim::hex(got.data() + d, got.size() - d, 6).c_str(), sim::hex(f.msg.data() + d, f.msg.size() - d, 6).c_str());
+				}
+				if (f.verdict == ref::MALFORMED) fail("malformed-accepted", "%s queue: malformed frame %s delivered as a message of %zu bytes", ref::framing_name(framing), sim::hex(stream.data() + f.beg, f.end - f.beg, 24).c_str(), got.size());
+				st.hit(f.verdict == ref::WELL ? "frames:wellformed_delivered" : "frames:unspecified_delivered");
+				++frames_done;
+				return true;
+			}
+			if (rc < 0) {
+				if (frames_done < frames.size() && frames[frames_done].end <= fed) {
+					const Fr &f = frames[frames_done];
+					if (f.verdict == ref::WELL) fail("wellformed-rejected", "%s queue: well-formed frame %s rejected with error %d", ref::framing_name(framing), sim::hex(stream.data() + f.beg, f.end - f.beg, 24).c_str(), rc);
+					st.hit("frames:malformed_rejected");
+				} else st.hit("frames:error_on_incomplete");
+				resync();
+				return true;
+			}
+			return false;
+		};
+		for (const Op &op : p.ops) {
+			if (op.kind == OP_ARRIVE) { st.hit("op:ARRIVE"); arrive((size_t) std::max<int64_t>(op.a, 1)); }
+			else if (op.kind == OP_DECODE) step(false);
+			else step(true);
+			if (calls > 2000) break;
+		}
+		arrive(stream.size());
+		size_t bound = 6 * (frames.size() + 2) + stream.size() / 2 + 8, steps = 0;
+		while (frames_done < frames.size()) {
+			if (++steps > bound) fail("no-verdict", "%s queue: all input present, frame %zu (%s) neither delivered nor rejected after %zu calls (curr=%zu pos=%zu len=%zu queue %zu/%zu)", ref::framing_name(framing), frames_done,
+			                          sim::hex(stream.data() + frames[frames_done].beg, frames[frames_done].end - frames[frames_done].beg, 24).c_str(), steps, dq._state.curr, dq._state.data.pos, dq._state.data.len, dq.len, dq.max);
+			step(false);
+		}
+		for (int i = 0; i < 3; ++i) step(false);
+	}
 	// ---------------------------------------------------------------- execution
 	void exec(const Plan &p, Log &log, Stats &st) override {
 		const int framing = (int) p.get("framing") % 5;
@@ -108,7 +202,6 @@ struct HostileWorld : World {
 		if (p.get("corruptions")) st.hit("fault:wire_corruptions", (uint64_t) p.get("corruptions"));
 
 		// frames of the stream as the strict reference sees them
-		struct Fr { size_t beg, end; int verdict; Bytes msg; };
 		std::vector<Fr> frames;
 		for (size_t b = 0, i = 0; i < stream.size(); ++i) if (!stream[i]) {
 			Fr f; f.beg = b; f.end = i + 1;
@@ -116,6 +209,7 @@ struct HostileWorld : World {
 			if (framing == ref::COMMAND) { Bytes m; m.push_back(0x04); m.push_back(' '); m.insert(m.end(), f.msg.begin(), f.msg.end()); f.msg = m; }
 			frames.push_back(f); b = i + 1;
 		}
+		if (p.get("layer")) { exec_queue(p, framing, stream, frames_of(frames), log, st); return; }
 		decode_state ds;
 		Bytes vis;               // what the decoder sees: arrived bytes plus granted slack, decoded in place
 		size_t fed = 0;          // stream bytes handed over so far
